@@ -2,7 +2,7 @@
 From Coq Require Import List String Bool Arith ZArith.
 Import ListNotations.
 Require Import MV.Contract.ContractSyntax MV.Contract.StateModel MV.Contract.Emit MV.Contract.BlockVars
-               MV.Generated.C03_gen.
+               MV.Contract.Delete MV.Generated.C03_gen.
 Local Open Scope string_scope.
 
 Inductive kind := KIf | KWhile | KFor.
@@ -90,3 +90,27 @@ Definition check_dyn (c : dyn_case) : bool :=
 
 Definition failing_dyn (l : list dyn_case) : list nat :=
   map dc_id (filter (fun c => negb (check_dyn c)) l).
+
+(* one `del` statement of a converted program: its targets and the statements VariableAccessTransformer.visit_Delete
+   really returned for it *)
+Definition target_eqb (a b : target) : bool :=
+  match a, b with
+  | TName x, TName y => String.eqb x y
+  | TComp p, TComp q => qn_eqb p q
+  | _, _ => false
+  end.
+Definition dstmt_eqb (a b : dstmt) : bool :=
+  match a, b with
+  | DRead x, DRead y => String.eqb x y
+  | DBindUndef x n, DBindUndef y m => String.eqb x y && String.eqb n m
+  | DDel ts, DDel us => list_eqb target_eqb ts us
+  | _, _ => false
+  end.
+
+Record del_case := { dl_id : nat; dl_targets : list target; dl_emitted : list dstmt }.
+
+Definition check_del (c : del_case) : bool :=
+  list_eqb dstmt_eqb (lower_delete delete_rule_gen (dl_targets c)) (dl_emitted c).
+
+Definition failing_del (l : list del_case) : list nat :=
+  map dl_id (filter (fun c => negb (check_del c)) l).
